@@ -79,14 +79,14 @@ def _run(args):
     np.random.seed(seed)
     if kind == "rsp":
         obj = Sv.RandomizedSketchProjectPseudoinverse(block_size=cfg["block"], max_iter=cfg["max_iter"], tol=tol,
-                                                      test_sketch_size=cfg.get("test", 4), column_solver=cfg["solver"], seed=cfg.get("seed"))
+                                                      column_solver=cfg["solver"], seed=cfg.get("seed"), **({} if cfg.get("test") == "default" else {"test_sketch_size": cfg.get("test", 4)}))
         call = obj.compute
     elif kind == "rsp_col":
         obj = Sv.RandomizedSketchProjectPseudoinverse(block_size=cfg["block"], max_iter=cfg["max_iter"], tol=tol,
-                                                      test_sketch_size=cfg.get("test", 4), column_solver=cfg["solver"], seed=cfg.get("seed"))
+                                                      column_solver=cfg["solver"], seed=cfg.get("seed"), **({} if cfg.get("test") == "default" else {"test_sketch_size": cfg.get("test", 4)}))
         call = obj.compute_column_variant
     elif kind == "rsp_row":
-        obj = Sv.RandomizedSketchProjectPseudoinverse(block_size=cfg["block"], max_iter=cfg["max_iter"], tol=tol, test_sketch_size=cfg.get("test", 4), seed=cfg.get("seed"))
+        obj = Sv.RandomizedSketchProjectPseudoinverse(block_size=cfg["block"], max_iter=cfg["max_iter"], tol=tol, seed=cfg.get("seed"), **({} if cfg.get("test") == "default" else {"test_sketch_size": cfg.get("test", 4)}))
         call = obj.compute_row_variant
     elif kind == "hybrid":
         obj = Sv.HybridRSPNewtonSchulz(r=cfg["block"], p=cfg["p"], T=cfg["T"], tol=tol, max_iter=cfg["max_iter"], column_solver=cfg["solver"])
@@ -227,6 +227,9 @@ def run(ctx, replay=None):
             # the solver's own seed= option (the constructor reseeds the global generator), alone and together with equal sketch widths
             ("rsp_col", {"block": 3, "solver": "qr", "max_iter": 300, "test": 3, "seed": 5}), ("rsp", {"block": 2, "solver": "spd", "max_iter": 300, "test": 2, "seed": 0}),
             ("rsp_col", {"block": 2, "solver": "qr", "max_iter": 300, "seed": 7}),
+            # options LEFT AT THEIR DEFAULTS are values too: the monitoring sketch size is not passed
+            ("rsp", {"block": 1, "solver": "qr", "max_iter": 400, "test": "default"}), ("rsp_col", {"block": 2, "solver": "spd", "max_iter": 300, "test": "default"}),
+            ("rsp", {"block": 16, "solver": "qr", "max_iter": 300, "test": "default"}),
             ("hybrid", {"block": 2, "p": 4, "T": 3, "solver": "qr", "max_iter": 120}),
             # hyperpower orders that are not powers of two (the order is a free integer parameter)
             ("hybrid", {"block": 2, "p": 3, "T": 2, "solver": "qr", "max_iter": 120}),
@@ -263,7 +266,7 @@ def run(ctx, replay=None):
                 for sd in seeds:
                     if cond > 1 and min(sh) == 1:
                         continue
-                    for kind, cfg in (("rsp_row", {"block": 2, "max_iter": 300}), ("rsp_row", {"block": 2, "max_iter": 300, "test": 2, "seed": 1}), ("rsp", {"block": 3, "solver": "qr", "max_iter": 300}),
+                    for kind, cfg in (("rsp_row", {"block": 2, "max_iter": 300}), ("rsp_row", {"block": 1, "max_iter": 300, "test": "default"}), ("rsp_row", {"block": 3, "max_iter": 300, "test": "default"}), ("rsp_row", {"block": 2, "max_iter": 300, "test": 2, "seed": 1}), ("rsp", {"block": 3, "solver": "qr", "max_iter": 300}),
                                       # single-row sketches (1 x 1 Gram solves) and blocks as large as the matrix, small budget
                                       ("rsp_row", {"block": 1, "max_iter": 80}), ("rsp_row", {"block": sh[0], "max_iter": 60})):
                         tid += 1
